@@ -268,6 +268,33 @@ func c06Run(r *Run) {
 					return true
 				})
 			}
+			// list := arr.List — a local name for an array's slot list (the slice header is copied, the cells are not)
+			listAlias := map[types.Object]bool{}
+			isSlotList := func(e ast.Expr) bool {
+				if se, ok := ast.Unparen(e).(*ast.SelectorExpr); ok && se.Sel.Name == "List" && isArr(info.TypeOf(se.X)) {
+					return true
+				}
+				if id, ok := ast.Unparen(e).(*ast.Ident); ok && listAlias[info.Uses[id]] {
+					return true
+				}
+				return false
+			}
+			ast.Inspect(fd.Body, func(n ast.Node) bool {
+				if as, ok := n.(*ast.AssignStmt); ok && len(as.Lhs) == len(as.Rhs) {
+					for i, rh := range as.Rhs {
+						if se, ok := ast.Unparen(rh).(*ast.SelectorExpr); ok && se.Sel.Name == "List" && isArr(info.TypeOf(se.X)) {
+							if id, ok := as.Lhs[i].(*ast.Ident); ok {
+								if o := info.ObjectOf(id); o != nil {
+									if _, isParam := sliceParam[o]; !isParam {
+										listAlias[o] = true
+									}
+								}
+							}
+						}
+					}
+				}
+				return true
+			})
 			var exprOrigin func(e ast.Expr) origin
 			exprOrigin = func(e ast.Expr) origin {
 				switch x := ast.Unparen(e).(type) {
@@ -276,7 +303,7 @@ func c06Run(r *Run) {
 						return org[o]
 					}
 				case *ast.IndexExpr:
-					if se, ok := ast.Unparen(x.X).(*ast.SelectorExpr); ok && se.Sel.Name == "List" && isArr(info.TypeOf(se.X)) {
+					if isSlotList(x.X) {
 						return oList
 					}
 				case *ast.CallExpr:
@@ -318,7 +345,7 @@ func c06Run(r *Run) {
 							}
 						}
 					case *ast.RangeStmt:
-						if se, ok := ast.Unparen(x.X).(*ast.SelectorExpr); ok && se.Sel.Name == "List" && isArr(info.TypeOf(se.X)) {
+						if isSlotList(x.X) {
 							if id, ok := x.Value.(*ast.Ident); ok {
 								if o := info.Defs[id]; o != nil {
 									org[o] = oList
